@@ -7,6 +7,9 @@ mod probe4;
 mod probe5;
 mod probe6;
 mod probe7;
+mod probe8;
+mod probe9;
+mod probe10;
 use cosmwasm_std::{coin, Coin, Decimal, Uint128};
 use cw_multi_test::Executor;
 use mantra_dex_std::farm_manager as fm;
@@ -282,6 +285,11 @@ fn main() {
     if which.iter().any(|w| w == "c16") { probe6::c16(); }
     if which.iter().any(|w| w == "c09") { probe6::c09(); }
     if which.iter().any(|w| w == "fbfs") { let d: usize = which.iter().filter_map(|x| x.parse().ok()).next().unwrap_or(3); probe7::run(d); }
+    if which.iter().any(|w| w == "c17") { probe8::c17(); }
+    if which.iter().any(|w| w == "c14") { probe8::c14(); }
+    if which.iter().any(|w| w == "c20") { probe8::c20(); }
+    if which.iter().any(|w| w == "c15") { probe9::run(); }
+    if which.iter().any(|w| w == "c08") { let d: usize = which.iter().filter_map(|x| x.parse().ok()).next().unwrap_or(3); probe10::run(d); }
     if which.iter().any(|w| w == "partest") { probe4::partest(); }
     if which.iter().any(|w| w == "bfs") { let d: usize = which.iter().filter_map(|x| x.parse().ok()).next().unwrap_or(3); probe4::run(d); }
     let _ = Uint128::zero();
